@@ -519,3 +519,68 @@ def json_to_dump(doc, tsinfo):
         entries[str(f["id"])] = {"type": t, "feats": feats}
     keys = sorted(entries, key=lambda x: int(x))
     return {"views": views, "fs": {k: entries[k] for k in keys}}
+
+
+# ------------------------------------------------------------------------------------------------
+# Type system descriptors
+# ------------------------------------------------------------------------------------------------
+TS_NS = "http://uima.apache.org/resourceSpecifier"
+
+
+def read_ts_xml(text):
+    """descriptor text -> abstract descriptor (texts exactly as in the XML, not trimmed)"""
+    if isinstance(text, str):
+        text = text.encode("utf-8")
+    root = ET.fromstring(text)
+    q = lambda n: "{%s}%s" % (TS_NS, n)
+    out = []
+    types = root.find(q("types"))
+    for td in ([] if types is None else types.findall(q("typeDescription"))):
+        def txt(el, name):
+            c = el.find(q(name))
+            return None if c is None else c.text
+        feats = []
+        fs = td.find(q("features"))
+        for fd in ([] if fs is None else fs.findall(q("featureDescription"))):
+            m = txt(fd, "multipleReferencesAllowed")
+            feats.append({"name": txt(fd, "name"), "descr": txt(fd, "description"), "range": txt(fd, "rangeTypeName"),
+                          "multi": None if m is None else {"true": True, "false": False}[m], "elem": txt(fd, "elementType")})
+        out.append({"name": txt(td, "name"), "descr": txt(td, "description"), "super": txt(td, "supertypeName"), "feats": feats})
+    return out
+
+
+def write_ts_xml(desc, layout=None):
+    """abstract descriptor -> XML text; layout: order (permutation), pad (surround descriptions with blanks),
+    pretty, empty_descr ('self-closing' | 'open-close' | 'omit')"""
+    layout = layout or {}
+    types = list(desc)
+    if layout.get("order") is not None:
+        types = [types[i] for i in layout["order"]]
+    nl = "\n" if layout.get("pretty") else ""
+    pad = "  " if layout.get("pad") else ""
+
+    def el(name, text, always=True):
+        if text is None:
+            mode = layout.get("empty_descr", "self-closing")
+            if not always or mode == "omit":
+                return ""
+            return "<%s/>" % name if mode == "self-closing" else "<%s></%s>" % (name, name)
+        return "<%s>%s</%s>" % (name, escape(pad + text + pad if name == "description" else text), name)
+
+    out = ['<?xml version="1.0" encoding="UTF-8"?>' + nl, '<typeSystemDescription xmlns="%s">' % TS_NS + nl, "<types>" + nl]
+    for t in types:
+        s = "<typeDescription>" + el("name", t["name"]) + el("description", t.get("descr")) + el("supertypeName", t["super"])
+        if t["feats"]:
+            s += "<features>"
+            for f in t["feats"]:
+                s += "<featureDescription>" + el("name", f["name"]) + el("description", f.get("descr")) + el("rangeTypeName", f["range"])
+                if f.get("multi") is not None:
+                    s += el("multipleReferencesAllowed", "true" if f["multi"] else "false")
+                if f.get("elem") is not None:
+                    s += el("elementType", f["elem"])
+                s += "</featureDescription>"
+            s += "</features>"
+        s += "</typeDescription>" + nl
+        out.append(s)
+    out.append("</types>" + nl + "</typeSystemDescription>" + nl)
+    return "".join(out)
